@@ -83,6 +83,14 @@ fn read_res<C: Context>(c: &mut C, key: ResKey, chk: RChk) -> Result<Option<Val>
   }
 }
 
+/// Read with a checker whose stamp is zero-sized (simulated families only).
+fn read_res_z<C: Context>(c: &mut C, key: ResKey, chk: ZChk) -> Result<Option<Val>, SimErr> {
+  match key.fam {
+    0 => { let mut r = c.read(&R::<0>(key.id), chk)?; Ok(r.take()) }
+    _ => { let mut r = c.read(&R::<1>(key.id), chk)?; Ok(r.take()) }
+  }
+}
+
 fn write_fn(w: &mut SimWriter<'_>, key: ResKey, val: Option<Val>) -> Result<(), SimErr> {
   log(Ev::WriteFnStart { res: key });
   tick();
@@ -185,7 +193,7 @@ fn run_ops<C: Context>(c: &mut C, prog: &Program, t: Tid, n: u32, ops: &[Op], st
         st.pos += 1;
         let frame = OpFrame { t, n, pos, op: OpK::Read, target: Target::Res(key) };
         with_sim(|s| { s.op_stack.push(frame); s.log.push(Ev::OpStart { t, n, pos, op: OpK::Read, target: frame.target }); });
-        let r = read_res(c, key, RChk { kind: *chk, tag: 0 });
+        let r = if chk.is_zst() && key.fam < 2 { read_res_z(c, key, ZChk { kind: *chk, serial: new_serial_pub() }) } else { read_res(c, key, RChk { kind: *chk, tag: 0 }) };
         let (obs, ok) = match r { Ok(v) => (chk.observe(v), true), Err(e) => (1000 + e.0 as Val, false) };
         with_sim(|s| { s.op_stack.pop(); s.log.push(Ev::OpEnd { t, n, pos, obs, ok }); });
         st.acc = fold(st.acc, obs);
